@@ -42,8 +42,9 @@ CONST = {"k": "k - t1"}
 ACT = {
     "a1": ("(:action a1 :parameters (?x - t1) :precondition (and (p ?x) (not (p k))) :effect (and (not (p ?x)) (p k)))",
            {"p", "k"}),
-    "a2": ("(:action a2 :parameters (?x - t1 ?y - t2) :precondition (and (q ?x ?y) (>= (f) 1)) "
-           ":effect (and (r) (decrease (f) 1)))", {"q", "f", "r"}),
+    # a2's same-typed parameters are not neighbours (?x - t1 ?y - t2 ?w - t1)
+    "a2": ("(:action a2 :parameters (?x - t1 ?y - t2 ?w - t1) :precondition (and (q ?x ?y) (p ?w) (>= (f) 1)) "
+           ":effect (and (r) (decrease (f) 1)))", {"q", "f", "r", "p"}),
 }
 OBJ = {"o1": "t1", "o2": "t2"}
 FACTS = {"(p o1)": {"o1", "p"}, "(p o2)": {"o2", "p"}, "(q o1 o2)": {"o1", "o2", "q"}, "(= (f) 1234567.25)": {"f"}}  # more than six significant digits
@@ -205,7 +206,7 @@ def check_case(case):
         "constants": {"k": "t1"},
         "predicates": {"p": [["?a", "t1"]], "q": [["?a", "t1"], ["?b", "t2"]], "r": []},
         "functions": {"f": []},
-        "actions": {"a1": [["?x", "t1"]], "a2": [["?x", "t1"], ["?y", "t2"]]},
+        "actions": {"a1": [["?x", "t1"]], "a2": [["?x", "t1"], ["?y", "t2"], ["?w", "t1"]]},
     }
     want_problem = {"objects": dict(OBJ, u0="object"), "atoms": {("p", "o1"), ("p", "o2"), ("q", "o1", "o2")}, "fluents": {("f",): Fraction("1234567.25")},
                     "goals": {("p", "o2"), ("r",)}}
